@@ -1100,6 +1100,81 @@ func AddCollidingKey(r *wk.Rand, v any) (any, bool) {
 	return v, true
 }
 
+// AddCollidingSpelling rewrites one map with integer keys as a map[string]any whose keys are decimal text and adds
+// a second spelling of one key ("07" or "+7" beside "7"): two keys that are different strings but the same integer.
+func AddCollidingSpelling(r *wk.Rand, v any) (any, bool) {
+	type cand struct {
+		m   map[any]any
+		set func(any)
+	}
+	var cands []cand
+	var walk func(cur any, set func(any))
+	walk = func(cur any, set func(any)) {
+		switch x := cur.(type) {
+		case []any:
+			for i := range x {
+				i := i
+				walk(x[i], func(n any) { x[i] = n })
+			}
+		case map[string]any:
+			for k := range x {
+				k := k
+				walk(x[k], func(n any) { x[k] = n })
+			}
+		case map[any]any:
+			allInt := len(x) > 0
+			for k := range x {
+				if kk, ok := k.(int64); !ok || kk < 0 {
+					allInt = false
+				}
+			}
+			if allInt {
+				cands = append(cands, cand{x, set})
+			}
+			for k := range x {
+				k := k
+				walk(x[k], func(n any) { x[k] = n })
+			}
+		}
+	}
+	root := v
+	walk(v, func(n any) { root = n })
+	if len(cands) == 0 {
+		return v, false
+	}
+	c := cands[r.Intn(len(cands))]
+	out := map[string]any{}
+	var first string
+	keys := make([]int64, 0, len(c.m))
+	for k := range c.m {
+		keys = append(keys, k.(int64))
+	}
+	sort.Slice(keys, func(i, j int) bool { return keys[i] < keys[j] })
+	for _, k := range keys {
+		out[fmt.Sprint(k)] = c.m[k]
+		if first == "" {
+			first = fmt.Sprint(k)
+		}
+	}
+	// the second spelling carries another entry's value where there is one, so that which of the two survives a
+	// merge can be told
+	twin := CopyRaw(out[first])
+	if len(keys) >= 2 {
+		twin = CopyRaw(out[fmt.Sprint(keys[len(keys)-1])])
+	}
+	out[Pick2(r, "0", "+")+first] = twin
+	c.set(out)
+	return root, true
+}
+
+// Pick2 returns a or b.
+func Pick2(r *wk.Rand, a, b string) string {
+	if r.Bool() {
+		return a
+	}
+	return b
+}
+
 func InsertOddKey(r *wk.Rand, v any) (any, string, bool) {
 	type node struct {
 		path string
